@@ -8,7 +8,8 @@ from .. import ttext
 RULE = ("texts: (a) every sequence of up to N lexical items of the 41-item alphabet (keywords, punctuators, identifiers, "
         "strings, ?1 ?t #1 !1 @x @ <1 1>x 1> >, three comment kinds, newline, `$`, `é`, unterminated string/comment), "
         "(b) token-level mutants (delete/dup/insert/swap/truncate/replace) of every *.llw in the repository, (c) character "
-        "soup with multi-byte characters; each text goes through the real lexer+parser+SemanticPass in a dev build "
+        "soup with multi-byte characters, (d) declaration-level edits of model-rendered accepted grammars (rule bodies emptied, part / start / skip "
+        "declarations added, declarations dropped, doubled, swapped); each text goes through the real lexer+parser+SemanticPass in a dev build "
         "(debug assertions, overflow checks) and a release build; monitors: panic (caught, with location and innermost "
         "function), every label range within the text on char boundaries, codespan rendering succeeds. "
         "non-trivial = text that drew >= 1 diagnostic; distinct = distinct text (generator emits few duplicates; "
@@ -26,6 +27,7 @@ def main(tier):
         texts.extend(ttext.mutants(rng, src, per))
         texts.append(src)
     texts.extend(ttext.soup(rng, 40000 if tier == "quick" else 200000))
+    texts.extend(ttext.decl_mutants(rng, 12000 if tier == "quick" else 120000))
     WORK.mkdir(exist_ok=True)
     tf = WORK / "c12_texts.jsonl"
     ntexts = ttext.write_texts(tf, texts)
